@@ -8,6 +8,7 @@ import copy
 import random
 
 from harness import gen, oracles, par
+from harness.common import Driver
 from harness.checks.C17 import sig_programs
 from harness.detcheck import key_of
 
@@ -92,7 +93,17 @@ def exit_scenarios(rng, n):
             # to wait for it or kill it, but may not forget it
             victim = rng.randrange(nn)
             if victim not in (op.get('fail') or {}).get('at', ()):
-                op['stubborn'] = {str(victim): rng.choice([2.5, 4.0, 7.0])}
+                # … for a few tenths of a second (gone at one of the bounded joins) or for seconds (SIGTERM, unbounded join)
+                op['stubborn'] = {str(victim): rng.choice([0.15, 0.35, 0.55, 0.85, 0.95, 1.05, 2.5, 4.0, 7.0])}
+        # adversarial schedules: the restart handler is held up between testing its stop conditions and waiting (the notification
+        # of the stopping thread is then lost), workers start slowly, the stopping thread is slow, …
+        r = rng.random()
+        if r < .2:
+            sc['rules'] = [{'role': 'restart_handler', 'op': 'lock.acquire', 'obj': None, 'sleep': rng.choice([0.03, 0.1, 0.5]), 'p': .6}]
+            if rng.random() < .5 and 'worker_lifespan' not in op and cause != 'apply':
+                op['worker_lifespan'] = rng.choice([1, 2])
+        elif r < .35:
+            sc['rules'] = gen.schedule_rules(rng, pool['n_jobs'])
         # cycles: the same thing several times on one pool accumulates nothing
         reps = rng.choice([1, 1, 2, 3]) if cause not in ('sigkill', 'sigint', 'abandoned_imap', 'mixed_map', 'terminate_during_imap', 'explicit_join', 'setter_cycle') else 1
         sc['ops'] = [copy.deepcopy(o) for _ in range(reps) for o in ops]
@@ -100,11 +111,61 @@ def exit_scenarios(rng, n):
     return out
 
 
+def shutdown_tie(chk, drv, scs, obs):
+    """what terminate() did to every worker process and how the restart handler thread was stopped, against Model/Shutdown.lean:
+    the actions of every `_terminate_worker` thread must be `terminateWorker` of what that worker did (flag read, the look at
+    which it was gone), and the visible events around every restart handler thread must be a behaviour of the repaired stop."""
+    A = 'forced shutdown of a worker process vs Mpire.Shutdown.terminateWorker'
+    C = 'stopping the restart handler thread vs Mpire.Shutdown.step (repaired stopper)'
+    lines, refs = [], []
+    for sc, o in zip(scs, obs):
+        if o.get('harness_error') or 'shutdown' not in o:
+            if o.get('shutdown_error'):
+                chk.mismatch(A + ': the trace could not be read', {'scenario': sc}, o.get('shutdown_error'), 'a readable trace')
+            continue
+        sd = o['shutdown']
+        for r in sd['tw']:
+            if r['open'] and o.get('stuck'):
+                continue            # the run was cut while this clean-up thread was at work
+            if r.get('concurrent'):
+                chk.notes['concurrent_terminate_calls_skipped'] = chk.notes.get('concurrent_terminate_calls_skipped', 0) + 1
+                continue
+            lines.append('tworker started=%d running=%d leaves=%s' % (1 if r.get('usable', True) else 0, 1 if r['running'] else 0, '-' if r['leaves'] is None else r['leaves']))
+            refs.append(('A', sc, r))
+        for h in sd['hstop']:
+            hh = h.split(',') if h else []
+            if 'X' in hh:
+                hh = hh[:hh.index('X') + 1]       # later calls of _stop_handler_threads find no thread any more
+            lines.append('hstop fixed=1 ev=%s' % (','.join(hh) or '-'))
+            refs.append(('C', sc, h))
+    for line, res, (part, sc, r) in zip(lines, drv.run(lines), refs):
+        if part == 'A':
+            chk.count(A, key=line + r['acts'], nontrivial=True, sample={'line': line, 'impl': r['acts'], 'model': res},
+                      running=r['running'], leaves=str(r['leaves']), sigterm='T' in r['acts'], usable=r.get('usable', True))
+            if res != 'acts=' + r['acts'] or r['open']:
+                chk.mismatch(A, {'scenario': sc, 'line': line, 'worker': r['wid']}, r['acts'] + (' (thread never ended)' if r['open'] else ''), res)
+                acts = r['acts'].split(',')
+                # failing input: the pool gave up on a process it had not seen gone, or never waited for one it sent SIGTERM
+                if 'J1' not in acts and 'F' not in acts and r['leaves'] is None and r.get('usable', True):
+                    chk.violation('forced_shutdown_waits_for_every_worker', {'scenario': sc, 'worker': r['wid']}, {'actions': r['acts']},
+                                  'terminate() leaves no worker process it has not seen gone', input_class='gave_up_on_worker')
+        else:
+            n_ev = line.count(',') + 1
+            chk.count(C, key=line, nontrivial=n_ev >= 4, sample={'line': line[:200], 'model': res}, events=min(n_ev // 5 * 5, 40),
+                      lost_notification='N0' in line, served='S' in line, failure='!' in line)
+            if res != 'ok':
+                chk.mismatch(C, {'scenario': sc, 'line': line}, r, res)
+
+
 def run(chk):
     rng = chk.rng
+    drv = Driver()
     sig_programs(chk, 500 if chk.tier == 'quick' else 5000)
     scs = exit_scenarios(rng, 330 if chk.tier == 'quick' else 5500)
+    for sc in scs:
+        sc['want_shutdown'] = True
     obs = par.run_all(scs)
+    shutdown_tie(chk, drv, scs, obs)
     for sc, o in zip(scs, obs):
         if o.get('harness_error'):
             chk.notes.setdefault('harness_errors', []).append(str(o['harness_error'])[-300:])
